@@ -3,8 +3,8 @@ package main
 import (
 	"fmt"
 	"io"
-	"sort"
 	"math/rand/v2"
+	"sort"
 
 	"github.com/bronlabs/bron-crypto/pkg/base/serde"
 	"github.com/bronlabs/bron-crypto/pkg/proofs/sigma"
@@ -79,9 +79,9 @@ func project[X sigma.Statement, W sigma.Witness, A sigma.Statement, S sigma.Stat
 
 type niOpts struct {
 	comps    []string
-	proofs   int  // proofs per (protocol, compiler)
-	bits     int  // bit positions per byte-string leaf (0 = all)
-	maxMut   int  // cap on alterations per proof (0 = all)
+	proofs   int // proofs per (protocol, compiler)
+	bits     int // bit positions per byte-string leaf (0 = all)
+	maxMut   int // cap on alterations per proof (0 = all)
 	toyQ     uint64
 	seed     uint64
 	interact bool // also the interactive compilers
